@@ -17,9 +17,10 @@ for line in log:
         if k in s:
             targets.append(('prefix-'+h[:7], h+'^', None, ids))
 # (b) seeded changes
-for d in sorted(glob.glob(os.path.join(V,'seeded','C??'))):
-    pid=os.path.basename(d)
-    targets.append(('seed-'+pid, 'HEAD', os.path.join(d,'patch.diff'), [pid]))
+for d in sorted(glob.glob(os.path.join(V,'seeded','C??*'))):
+    if not os.path.isdir(d): continue
+    name=os.path.basename(d); pid=name[:3]
+    targets.append(('seed-'+name, 'HEAD', os.path.join(d,'patch.diff'), [pid]))
 only=sys.argv[1:] 
 for name,rev,patch,ids in targets:
     if only and not any(o in name for o in only): continue
@@ -38,6 +39,7 @@ for name,rev,patch,ids in targets:
         os.makedirs(os.path.join(V,'corpus',pid),exist_ok=True)
         kept=0; seen=set()
         for f in files:
+            if os.path.getsize(f) > 200000: continue
             rf=json.load(open(f))
             if rf.get('sig') in seen: continue
             seen.add(rf.get('sig'))
